@@ -1010,6 +1010,66 @@ example : listProducts (render (opGe, n_1d9) []) [] [[⟨n_1d10, []⟩, ⟨n_1d9
 example : listProducts (render (opGe, n_1d9) []) [sLatest] [[⟨n_1d10, []⟩, ⟨n_1d9, [s_current]⟩, ⟨n_1d2, []⟩]] = .ok (.products [(0, n_1d10)]) := by decide
 example : listProducts [49, 46, 42] [] [[⟨n_1d10, []⟩, ⟨n_2, []⟩, ⟨n_1d2, []⟩]] = .ok (.products [(0, n_1d2), (0, n_1d10)]) := by decide   -- `1.*`
 
+/-! ## a version argument at the other entry points -/
+
+/-- **`findProduct(name, expr)`** (`_findPreferredProductByExpr`): whatever tags the session prefers and whichever
+versions carry them, the product returned satisfies the request and is declared where it is reported. -/
+theorem C10_find_by_expr_satisfies_request (preferred : List Str) (expr : Str) (stacks : List (List Decl)) (p : Nat × Str)
+    (hok : ∀ st ∈ versOf stacks, ∀ v ∈ st, ∃ b, versionMatch v expr = .ok b)
+    (h : findProductExpr preferred expr stacks = .ok (some p)) :
+    versionMatch p.2 expr = .ok true ∧ ∃ st, (versOf stacks)[p.1]? = some st ∧ p.2 ∈ st := by
+  obtain ⟨ms, hms, _, hiff, hdecl⟩ := C10_matches_across expr (versOf stacks) hok
+  simp only [findProductExpr, hms] at h
+  have hp := selectPreferred_mem stacks ms preferred p h
+  obtain ⟨st, h1, h2, _⟩ := hdecl p hp
+  exact ⟨((hiff p.2).mp (List.mem_map_of_mem hp)).2, st, h1, h2⟩
+
+/-- **`setup prod arg`, `arg` a relational request** (`findProductFromVRO`, entries `version` then `versionExpr`):
+nothing when no declared version satisfies it, otherwise a declared version that satisfies it and that no declared
+version satisfying it exceeds. -/
+theorem C10_entry_relational (arg : Str) (stacks : List (List Decl))
+    (hrel : isLegalRelativeVersion arg = .relational)
+    (hconv : ∀ st ∈ versOf stacks, ∀ v ∈ st, convName v = true)
+    (hok : ∀ st ∈ versOf stacks, ∀ v ∈ st, ∃ b, versionMatch v arg = .ok b)
+    (hlit : ∀ st ∈ stacks, ∀ d ∈ st, d.ver ≠ arg) :
+    (requestEntry arg stacks = .ok .nothing ∧ ∀ w ∈ (versOf stacks).flatten, versionMatch w arg ≠ .ok true) ∨
+    (∃ i v, requestEntry arg stacks = .ok (.found true i v) ∧ v ∈ (versOf stacks).flatten ∧ versionMatch v arg = .ok true ∧
+      ∀ w ∈ (versOf stacks).flatten, versionMatch w arg = .ok true → ∃ r, stdCompare false w v = .ok r ∧ r ≤ 0) := by
+  have hnone : exactLookup arg 0 stacks = none := by
+    cases hx : exactLookup arg 0 stacks with
+    | none => rfl
+    | some q =>
+      obtain ⟨_, _, st, hget, ⟨d, hd, hdv⟩, _⟩ := (exactLookup_spec arg stacks 0).1 q.1 q.2 hx
+      exact absurd hdv (hlit st (List.mem_of_getElem? hget) d hd)
+  rcases C10_preferred_by_expr_is_max arg (versOf stacks) hconv hok with ⟨h1, h2⟩ | ⟨i, v, h1, h2, h3, h4⟩
+  · exact Or.inl ⟨by simp [requestEntry, hrel, h1, hnone], h2⟩
+  · exact Or.inr ⟨i, v, by simp [requestEntry, hrel, h1], h2, h3, h4⟩
+
+/-- **`setup prod arg`, `arg` a version name**: exactly that string (not a version that merely compares equal to it),
+from the first stack of the path that declares it. -/
+theorem C10_entry_explicit (arg : Str) (stacks : List (List Decl)) (hv : wfName arg) :
+    (requestEntry arg stacks = .ok .nothing ∧ ∀ st ∈ stacks, ∀ d ∈ st, d.ver ≠ arg) ∨
+    (∃ i st, requestEntry arg stacks = .ok (.found false i arg) ∧ stacks[i]? = some st ∧ (∃ d ∈ st, d.ver = arg) ∧
+      ∀ k st', k < i → stacks[k]? = some st' → ∀ d ∈ st', d.ver ≠ arg) := by
+  have hp := C10_legal_name_plain arg hv
+  cases hx : exactLookup arg 0 stacks with
+  | none => exact Or.inl ⟨by simp [requestEntry, hp, hx], (exactLookup_spec arg stacks 0).2 hx⟩
+  | some q =>
+    obtain ⟨i, w⟩ := q
+    obtain ⟨rfl, _, st, hget, hdecl, hfirst⟩ := (exactLookup_spec arg stacks 0).1 i w hx
+    exact Or.inr ⟨i, st, by simp [requestEntry, hp, hx], by simpa using hget, hdecl, by simpa using hfirst⟩
+
+/-- **`setup prod "= v"`** is refused. -/
+theorem C10_entry_single_equals (lead gap v : Str) (stacks : List (List Decl))
+    (hl : isWs lead) (hg : isWs gap) (hgne : gap ≠ []) (hv : wfName v) :
+    requestEntry (lead ++ 61 :: (gap ++ v)) stacks = .ok .badSyntax := by
+  simp [requestEntry, C10_legal_single_equals lead gap v hl hg hgne hv]
+
+-- `findProduct("prod", ">= 1.2")`: `current` (on 1.9) is preferred to the latest (1.10); `setup prod ">= 1.2"` takes the latest
+example : findProductExpr [s_current, sLatest] (render (opGe, n_1d2) []) [[⟨n_1d10, []⟩, ⟨n_1d9, [s_current]⟩, ⟨n_1d2, []⟩]] = .ok (some (0, n_1d9)) := by decide
+example : requestEntry (render (opGe, n_1d2) []) [[⟨n_1d10, []⟩, ⟨n_1d9, [s_current]⟩, ⟨n_1d2, []⟩]] = .ok (.found true 0 n_1d10) := by decide
+example : requestEntry n_1d9 [[⟨n_1d10, []⟩], [⟨n_1d9, [s_current]⟩, ⟨n_1d2, []⟩]] = .ok (.found false 1 n_1d9) := by decide
+
 /-! non-vacuity: a chain, its rendering, the loop's answer; a list and its latest member -/
 example : render (opGe, n_1d2) [(opLt, n_1d10)] = [62, 61, 32, 49, 46, 50, 32, 124, 124, 32, 60, 32, 49, 46, 49, 48] := by decide
 #guard Str.toString (render (opGe, n_1d2) [(opLt, n_1d10)]) == ">= 1.2 || < 1.10"
